@@ -77,6 +77,17 @@ theorem PySame.trans {a b c : PyVal} (h1 : PySame a b) (h2 : PySame b c) : PySam
     · exact Or.inr h1
     · exact Or.inr (pyEq_trans h1 h2)
 
+theorem pySame_num_eq {a b : PyVal} (h : PySame a b) {x y : ℚ} (ha : a.num? = some x) (hb : b.num? = some y) :
+    x = y := by
+  rcases h with rfl | h
+  · rw [ha] at hb; simpa using hb
+  · rw [pyEq_iff] at h
+    rcases h with ⟨z, h1, h2⟩ | ⟨h1, _⟩
+    · rw [ha] at h1; rw [hb] at h2
+      simp only [Option.some.injEq] at h1 h2
+      rw [h1, h2]
+    · rw [ha] at h1; simp at h1
+
 theorem PySame.str_left {s : Str} {v : PyVal} (h : PySame (.str s) v) : v = .str s := by
   rcases h with h | h
   · exact h.symm
@@ -248,27 +259,17 @@ theorem hoist_key_mem {ms : List Dict} {g : Dict} (h : HoistSound ms g) {k : Key
   obtain ⟨v', hv', _⟩ := h kv.1 kv.2 hkv m hm
   exact get_isSome_iff.mp (by simp [hv'])
 
-theorem hoistable_nodup (cfg : Cfg) (m : Dict) (h : (keys m).Nodup) : (keys (hoistable cfg m)).Nodup := by
+theorem hoistable_nodup (m : Dict) (h : (keys m).Nodup) : (keys (hoistable m)).Nodup := by
   unfold hoistable
-  simp only
-  split <;> nodup_tac
+  nodup_tac
 
-theorem tag_not_hoistable (cfg : Cfg) (m : Dict) : Key.tag ∉ keys (hoistable cfg m) := by
+theorem tag_not_hoistable (m : Dict) : Key.tag ∉ keys (hoistable m) := by
   unfold hoistable
-  simp only
-  split <;> simp [mem_keys_pop]
-
-theorem include_not_hoistable (cfg : Cfg) (hc : cfg.includeInt = true) (m : Dict) :
-    Key.include ∉ keys (hoistable cfg m) := by
-  unfold hoistable
-  simp only [hc, if_true]
   simp [mem_keys_pop]
 
-theorem get_hoistable (cfg : Cfg) (m : Dict) (k : Key) (h1 : k ≠ .tag) (h2 : k ≠ .include) :
-    get (hoistable cfg m) k = get m k := by
+theorem get_hoistable (m : Dict) (k : Key) (h1 : k ≠ .tag) : get (hoistable m) k = get m k := by
   unfold hoistable
-  simp only
-  split <;> simp [get_pop, h1, h2]
+  simp [get_pop, h1]
 
 theorem get_popKeys (ks : List Key) (d : Dict) (k : Key) :
     get (ks.foldl AL.pop d) k = if k ∈ ks then none else get d k := by
@@ -361,14 +362,14 @@ theorem nodup_rawDict (m : Dict) (hn : (keys m).Nodup) : (keys (rawDict m)).Nodu
 /-! ### `_define_raw_metadata` -/
 
 /-- what becomes of one raw item: `none` = dropped as invalid. -/
-def rawConv (cfg : Cfg) (k : Key) (rv : RVal) : Option PyVal :=
-  match invalidItem k (convertVal cfg k rv) with
-  | .ok false => some (convertVal cfg k rv)
+def rawConv (k : Key) (rv : RVal) : Option PyVal :=
+  match invalidItem k (convertVal k rv) with
+  | .ok false => some (convertVal k rv)
   | _ => none
 
-theorem defineRawAux_spec (cfg : Cfg) (d : RDict) (raw : Dict) (hn : (keys d).Nodup)
-    (h : defineRawAux cfg d = .ok raw) :
-    (∀ k, get raw k = (get d k).bind (rawConv cfg k)) ∧ (keys raw).Sublist (keys d) := by
+theorem defineRawAux_spec (d : RDict) (raw : Dict) (hn : (keys d).Nodup)
+    (h : defineRawAux d = .ok raw) :
+    (∀ k, get raw k = (get d k).bind (rawConv k)) ∧ (keys raw).Sublist (keys d) := by
   induction d generalizing raw with
   | nil =>
     simp only [defineRawAux, Except.ok.injEq] at h
@@ -418,18 +419,17 @@ theorem defineRawAux_spec (cfg : Cfg) (d : RDict) (raw : Dict) (hn : (keys d).No
 
 /-- the dictionary `_define_raw_metadata` iterates over has no repeated key when the running
 `global` dictionary has none. -/
-theorem nodup_all (g : RDict) (inc : RVal) (loc : RDict) (hg : (keys g).Nodup) :
-    (keys (AL.update (AL.update g [(Key.include, inc)]) loc)).Nodup := by
+theorem nodup_all (g : RDict) (inc : RDict) (loc : RDict) (hg : (keys g).Nodup) :
+    (keys (AL.update (AL.update g inc) loc)).Nodup := by
   nodup_tac
 
-theorem defineRaw_get (cfg : Cfg) (g : RDict) (neg : Bool) (loc : RDict) (raw : Dict)
-    (hg : (keys g).Nodup) (h : defineRaw cfg g neg loc = .ok raw) (k : Key) :
+theorem defineRaw_get (g : RDict) (sign : Option Bool) (loc : RDict) (raw : Dict)
+    (hg : (keys g).Nodup) (h : defineRaw g sign loc = .ok raw) (k : Key) :
     get raw k =
       (((get loc k).orElse (fun _ =>
-          (if Key.include = k then some (RVal.str (if neg then ['0'] else ['1'])) else none).orElse
-            (fun _ => get g k)))).bind (rawConv cfg k) := by
+          (get (includeMeta g sign) k).orElse (fun _ => get g k)))).bind (rawConv k) := by
   unfold defineRaw at h
-  rw [(defineRawAux_spec cfg _ raw (nodup_all g _ loc hg) h).1 k, get_update, get_update, get_singleton]
+  rw [(defineRawAux_spec _ raw (nodup_all g _ loc hg) h).1 k, get_update, get_update]
 
 /-! ### the line layer: `rawData` on `toRaw` -/
 
@@ -438,51 +438,51 @@ def lineNums (sky : ℚ → ℚ) (p : ℕ) (l : WLine) : List ℚ :=
   l.params.map fun w => if w.astro then sky w.val else roundTo p w.val
 
 /-- what `_parse_raw_data` makes of the writer's region lines, given the `global` dictionary. -/
-def expectRaw (cfg : Cfg) (sky : ℚ → ℚ) (p : ℕ) (G : RDict) : List WLine → Except String (List RegionData)
+def expectRaw (sky : ℚ → ℚ) (p : ℕ) (G : RDict) : List WLine → Except String (List RegionData)
   | [] => .ok []
   | l :: ls =>
-    match defineRaw cfg G false (rawDict l.mta) with
+    match defineRaw G none (rawDict l.mta) with
     | .error e => .error e
     | .ok raw =>
-      match expectRaw cfg sky p G ls with
+      match expectRaw sky p G ls with
       | .error e => .error e
       | .ok ds => .ok (⟨l.frame, l.shape, lineNums sky p l, raw⟩ :: ds)
 
-theorem rawData_global_frame (cfg : Cfg) (sky : ℚ → ℚ) (p : ℕ) (G : RDict) (gf : FName)
+theorem rawData_global_frame (sky : ℚ → ℚ) (p : ℕ) (G : RDict) (gf : FName)
     (ls : List WLine) (h : ∀ l ∈ ls, l.frame = gf) :
-    rawData cfg G (some gf)
-      (ls.flatMap fun l => [RLine.shape false l.shape (lineNums sky p l) (rawDict l.mta)]) =
-    expectRaw cfg sky p G ls := by
+    rawData G (some gf)
+      (ls.flatMap fun l => [RLine.shape none l.shape (lineNums sky p l) (rawDict l.mta)]) =
+    expectRaw sky p G ls := by
   induction ls with
   | nil => simp [rawData, expectRaw]
   | cons l ls ih =>
     rw [List.flatMap_cons, List.singleton_append, rawData.eq_def]
     simp only
     rw [expectRaw, ih (fun l' hl' => h l' (List.mem_cons_of_mem _ hl')), h l List.mem_cons_self]
-    cases defineRaw cfg G false (rawDict l.mta) with
+    cases defineRaw G none (rawDict l.mta) with
     | error e => rfl
-    | ok raw => cases expectRaw cfg sky p G ls <;> rfl
+    | ok raw => cases expectRaw sky p G ls <;> rfl
 
-theorem rawData_line_frames (cfg : Cfg) (sky : ℚ → ℚ) (p : ℕ) (G : RDict) (f0 : Option FName)
+theorem rawData_line_frames (sky : ℚ → ℚ) (p : ℕ) (G : RDict) (f0 : Option FName)
     (ls : List WLine) :
-    rawData cfg G f0
+    rawData G f0
       (ls.flatMap fun l =>
-        [RLine.frame l.frame, RLine.shape false l.shape (lineNums sky p l) (rawDict l.mta)]) =
-    expectRaw cfg sky p G ls := by
+        [RLine.frame l.frame, RLine.shape none l.shape (lineNums sky p l) (rawDict l.mta)]) =
+    expectRaw sky p G ls := by
   induction ls generalizing f0 with
   | nil => simp [rawData, expectRaw]
   | cons l ls ih =>
     rw [List.flatMap_cons]
-    show rawData cfg G f0 (RLine.frame l.frame :: RLine.shape false l.shape (lineNums sky p l) (rawDict l.mta)
+    show rawData G f0 (RLine.frame l.frame :: RLine.shape none l.shape (lineNums sky p l) (rawDict l.mta)
       :: _) = _
     rw [rawData.eq_def]
     simp only
     rw [rawData.eq_def]
     simp only [List.append_eq, List.nil_append]
     rw [expectRaw, ih]
-    cases defineRaw cfg G false (rawDict l.mta) with
+    cases defineRaw G none (rawDict l.mta) with
     | error e => rfl
-    | ok raw => cases expectRaw cfg sky p G ls <;> rfl
+    | ok raw => cases expectRaw sky p G ls <;> rfl
 
 theorem commonFrame_some {ls : List WLine} {f : FName} (h : commonFrame ls = some f) :
     ∀ l ∈ ls, l.frame = f := by
@@ -511,19 +511,19 @@ theorem readGlobal_nodup (o : WOut) : (keys (readGlobal o)).Nodup := by
   · simp [keys]
   · apply nodup_update; simp [keys]
 
-theorem rawData_toRaw (cfg : Cfg) (sky : ℚ → ℚ) (o : WOut) (hf : o.gframe = commonFrame o.lines) :
-    rawData cfg [] none (toRaw sky o) = expectRaw cfg sky o.prec (readGlobal o) o.lines := by
+theorem rawData_toRaw (sky : ℚ → ℚ) (o : WOut) (hf : o.gframe = commonFrame o.lines) :
+    rawData [] none (toRaw sky o) = expectRaw sky o.prec (readGlobal o) o.lines := by
   unfold toRaw readGlobal
   cases hg : o.gframe with
   | none =>
     simp only [List.append_nil, List.nil_append]
     by_cases hgl : o.global = []
     · simp only [if_pos hgl, List.nil_append]
-      exact rawData_line_frames cfg sky o.prec [] none o.lines
+      exact rawData_line_frames sky o.prec [] none o.lines
     · simp only [if_neg hgl, List.singleton_append]
       rw [rawData.eq_def]
       simp only
-      exact rawData_line_frames cfg sky o.prec _ none o.lines
+      exact rawData_line_frames sky o.prec _ none o.lines
   | some gf =>
     have hall := commonFrame_some (hf ▸ hg).symm.symm
     simp only [List.nil_append]
@@ -531,18 +531,18 @@ theorem rawData_toRaw (cfg : Cfg) (sky : ℚ → ℚ) (o : WOut) (hf : o.gframe 
     · simp only [if_pos hgl, List.nil_append, List.singleton_append]
       rw [rawData.eq_def]
       simp only
-      exact rawData_global_frame cfg sky o.prec [] gf o.lines hall
+      exact rawData_global_frame sky o.prec [] gf o.lines hall
     · simp only [if_neg hgl, List.singleton_append, List.cons_append, List.nil_append]
       rw [rawData.eq_def]
       simp only
       rw [rawData.eq_def]
       simp only
-      exact rawData_global_frame cfg sky o.prec _ gf o.lines hall
+      exact rawData_global_frame sky o.prec _ gf o.lines hall
 
-theorem expectRaw_forall₂ (cfg : Cfg) (sky : ℚ → ℚ) (p : ℕ) (G : RDict) (ls : List WLine)
-    (rd : List RegionData) (h : expectRaw cfg sky p G ls = .ok rd) :
+theorem expectRaw_forall₂ (sky : ℚ → ℚ) (p : ℕ) (G : RDict) (ls : List WLine)
+    (rd : List RegionData) (h : expectRaw sky p G ls = .ok rd) :
     List.Forall₂ (fun l d => d.frame = l.frame ∧ d.shape = l.shape ∧ d.params = lineNums sky p l ∧
-      defineRaw cfg G false (rawDict l.mta) = .ok d.raw) ls rd := by
+      defineRaw G none (rawDict l.mta) = .ok d.raw) ls rd := by
   induction ls generalizing rd with
   | nil =>
     simp only [expectRaw, Except.ok.injEq] at h
